@@ -23,4 +23,28 @@ PROPS = {
         trusted=["modelled, not verified: Go slice bounds checks, copy(), SliceFill's doubling copy for >= 50 elements (exercised by capacities 49..200)"],
         explanation="C14.step_refines/refines_queue/consumed_slots_zero proved for every capacity and op list; correspondence ties Ring.RB to container/ringbuffer.go incl. backing array",
     ),
+    "C18": dict(
+        lean=["GolibsVerif.Props.C18"],
+        seq=[dict(comp="mixer")],
+        rule="cases = (selector, input1, input2, resettable flags, call pattern): all pairs of sequences of length <= 3 (quick) / 4 (thorough) over {1,2,3} x selectors {<,<=,const true,const false,(>=,parity)} x drain patterns; every HasNext/Next/Reset pattern to depth 6/8 on 5 small input pairs; resettable/non-resettable combinations; random inputs up to 40+40 elements; non-trivial = both inputs non-empty with a tie under the selector, or a Reset in mid-stream; distinct = hash of (header, op list)",
+        assumptions=["input iterators honour the Iterator contract (list-backed: iterable.WrapIntSlice, optionally with Reset hidden)"],
+        trusted=["modelled, not verified: Go interface dispatch / type assertion to golibs.Reseter"],
+        explanation="C18.step_refines lifted to every call pattern (pattern_independent), output_eq_merge, is_interleaving, sorted_merge, reset_restarts; correspondence ties Mixer.Mx to container/iterable/mixer.go",
+    ),
+    "C15": dict(
+        lean=["GolibsVerif.Props.C15"],
+        seq=[dict(comp="xbin", args=["-focus", "C15"], stateless=True, decisive=lambda d: d["op"].startswith("mon C15"), ignore=lambda d: d["op"].startswith("mon C16") or d["op"].startswith("ub ") or d["op"].startswith("uu ") or d["op"].startswith("uf "))],
+        rule="cases = groups of codec calls: MarshalUint for all 16-bit values, all 2^b-1/2^b/2^b+1 (b<64) with every buffer length 0..size+1, random 64-bit values; fixed widths (all bytes, random 16/32/64-bit, every short buffer); byte strings of lengths 0..40 and around 127/128, 16383/16384 (thorough: 2^21) with destination lengths around the predicted size; ObjectsWriter vs Marshal; random concatenations of 1..8 items decoded back; non-trivial = value/length on a 7-bit group boundary +-1; distinct counted per case group (each group contains thousands of distinct inputs, see op_kinds)",
+        assumptions=["decoded-data independence with newBuf=true is checked by the Go-side monitor only (aliasing is not expressible in the value-level model)", "len(v) < 2^63"],
+        trusted=["modelled, not verified: encoding/binary.BigEndian, copy(), unsafe string<->[]byte casts in package cast", "Gen.Xbin.writableUintSize is regenerated from xbinary.go by harness/cmd/extract (go/ast if-tree translator)"],
+        explanation="C15.item_roundtrip / concat_decodes / writer_eq_marshal / uint_size_eq_written proved against the REGENERATED size function; correspondence + Go-side monitors tie Xbin.* to xbinary.go",
+    ),
+    "C16": dict(
+        lean=["GolibsVerif.Props.C16"],
+        seq=[dict(comp="xbin", args=["-focus", "C16"], stateless=True, decisive=lambda d: d["op"].startswith("mon C16") or "impl=panic" in d["detail"], ignore=lambda d: d["op"].startswith("mon C15"))],
+        rule="cases = groups of Unmarshal calls on arbitrary bytes: every input of <= 2 bytes (quick: thinned), 3-4 byte inputs over {00,01,02,03,7f,80,81,ff}, length prefixes within +-12 of 2^31, 2^32, 2^62, 2^63, 2^64 followed by 0..20 body bytes, over-long varints of 9..14 continuation bytes, truncated and bit-flipped valid encodings; non-trivial = input that is not a valid encoding; every call runs under recover",
+        assumptions=["cap(buf) = len(buf) for the buffers handed to the decoders"],
+        trusted=["modelled, not verified: Go slice-expression bounds checks and int(uint64) conversion (two's complement)"],
+        explanation="C16.total / in_bounds proved for every byte list of any length; C16.total_fails_legacy is the kernel-checked witness that the pre-repair length test panics",
+    ),
 }
